@@ -71,7 +71,12 @@ def run(case):
         return violated("%s returned %s" % (desc, short(g)), tags)
     if g.shape != exp.shape:
         return violated("%s has %d entries, expected %d (longest row)" % (desc, len(g), len(exp)), tags, got=g, expected=exp)
-    if op.endswith("mean0"):
+    if case.get("vclass") == "bigfloat" and op.endswith("mean0"):
+        # the element type can hold every element and every column mean, but not the column total: the mean must still be finite
+        ok = bool(np.all(np.isfinite(g.astype(np.float64)))) and np.allclose(g.astype(np.float64), exp, rtol=1e-3 if dt.itemsize == 2 else 1e-6, atol=0)
+    elif case.get("vclass") == "bigfloat" and op != "getcol" and op != "col_counts":
+        ok = np.allclose(g.astype(np.float64), exp.astype(np.float64), rtol=1e-6, atol=0)
+    elif op.endswith("mean0"):
         ok = np.allclose(g.astype(np.float64), exp, rtol=1e-6 if dt == np.float32 else 1e-12, atol=0, equal_nan=True)
     elif op == "getcol":
         ok = same_array(g, exp, dtype=True)
@@ -93,6 +98,9 @@ def run(case):
 
 def _vals(rng, dtype, n, vclass):
     dt = np.dtype(dtype)
+    if vclass == "bigfloat" and dt.kind == "f":
+        top = 3e4 if dt.itemsize == 2 else (2.5e38 if dt.itemsize == 4 else 1e300)
+        return [rng.choice([top, top / 2, top / 4, 1.0]) for _ in range(n)]
     if vclass == "huge":
         if dt.kind in "iu" and dt.itemsize == 8:
             ii = np.iinfo(dt)
@@ -113,6 +121,8 @@ def gen_case(rng, lens, dtype, op=None, recv="fresh", vclass="small", j=None):
         j = rng.randint(0, max(0, M - 1))
     if vclass == "huge" and (op not in ("sum0", "np.sum0") or np.dtype(dtype).name not in ("int64", "uint64")):
         vclass = "medium"
+    if vclass == "bigfloat" and np.dtype(dtype).kind != "f":
+        vclass = "small"
     return mk_case(lens, dtype, _vals(rng, dtype, sum(lens), vclass), op, j, recv, vclass)
 
 
@@ -126,6 +136,7 @@ def directed():
                 yield gen_case(rng, lens, dtype, op)
                 yield gen_case(rng, lens, dtype, op, vclass="medium")
                 yield gen_case(rng, lens, dtype, op, vclass="huge")
+                yield gen_case(rng, lens, dtype, op, vclass="bigfloat")
             for j in range(max(lens)):
                 yield gen_case(rng, lens, dtype, "getcol", j=j)
         for recv in c02.RECVS[1:]:
@@ -144,7 +155,7 @@ def random_case(rng, tier):
         lens = [1, 0, 2]
     dtype = rng.choice(gen.DT_ALL)
     recv = rng.choice(c02.RECVS) if rng.random() < 0.4 else "fresh"
-    return gen_case(rng, lens, dtype, None, recv, rng.choice(["small", "medium", "huge"]))
+    return gen_case(rng, lens, dtype, None, recv, rng.choice(["small", "medium", "huge", "bigfloat"]))
 
 
 def classify(case, res):
